@@ -77,6 +77,24 @@ R2 = {
  "C14-3": ("/tmp/seeds2/C07/3", "C14", "modification time with a non-zero sub-second part (at least a second in the past): Last-Modified rounded UP to the next second", ["C04"]),
 }
 
+# third round: "deep" seeds -- sub-agents were given a bundle of related property texts and asked for
+# changes that only manifest in big / long / rare scenarios (beyond small exhaustive bounds)
+R2.update({
+ "C16-3": ("/tmp/seeds3/E/1", "C16", "Accept-Encoding list whose deciding element is the 17th or later: only the first 16 elements are read", []),
+ "C18-4": ("/tmp/seeds3/E/2", "C18", "a requested range of >= 2^32 bytes (sparse 4 GiB file): remaining length truncated to u32, read size 0 => UnexpectedEof on an unmodified file", []),
+ "C19-4": ("/tmp/seeds3/E/3", "C19", "a request path longer than 252 bytes IN TOTAL (short segments) with auto_gzip, gzip accepted and a .gz sibling present: probe skipped, plain file served", []),
+ "C04-5": ("/tmp/seeds3/B/1", "C04", "an entity-tag of >= 128 opaque bytes at or before the matching tag in If-Match / If-None-Match (e.g. the entity's own long ETag echoed back): list treated as corrupt", ["C14"]),
+ "C03-5": ("/tmp/seeds3/B/2", "C03", "a Range header with 17 or more specs: only the first 16 satisfiable ranges are resolved (later ones dropped, later syntax errors unseen)", ["C06"]),
+ "C15-4": ("/tmp/seeds3/B/3", "C15", "HEAD + >= 2 small ranges (multipart) + If-Range equal to the strong ETag + entity with headers: HEAD's Content-Length counts per-part entity headers that GET omits", []),
+ "C12-5": ("/tmp/seeds3/C/1", "C12", ">= 64 chunks queued unpolled, the newest a partial chunk, then one more write + flush that fits: merged into the queued chunk without counting it in ready_bytes (hint / end flag wrong, or underflow)", ["C08"]),
+ "C09-4": ("/tmp/seeds3/C/2", "C09", "gzip level 1: 58 251..61 440 incompressible bytes since the last flush in writes < 32 KiB (levels 2-9: 63 491..63 747, some splits), flush right after: second encoder flush made conditional", []),
+ "C09-5": ("/tmp/seeds3/C/3", "C09", "gzip: a run of consecutive writes < 256 bytes totalling > 4096 bytes without flush (>= 17 calls): staging buffer overflow returns a short count but keeps the tail (bytes duplicated)", []),
+ "C06-5": ("/tmp/seeds3/A/1", "C06", "multipart on an entity of >= 10^15 bytes with a range start, end or the length just below 10^k (k = 15..19): digit count computed with f64 log10 is one too large there", ["C01"]),
+ "C06-6": ("/tmp/seeds3/A/2", "C06", "entity length within ~40 bytes of 2^64 and ranges leaving a 160..200-byte window: 80-byte estimate says multipart, exact length overflows; the last addition is unchecked (panic / wrapped Content-Length instead of 413)", ["C01", "C13"]),
+ "C10-5": ("/tmp/seeds3/D/1", "C10", "consumer parked with W1, spurious re-poll with a different waker W2, and an abort that runs entirely between that poll's two lock acquisitions (waker swapped outside the lock; re-check ignores the Err state)", ["C11"]),
+ "C10-6": ("/tmp/seeds3/D/2", "C10", "three consecutive Pending polls with wakers A, B, A (the second re-poll REUSES the older waker), then any publish: cached `registered` not updated on replace, stale waker woken", []),
+})
+
 def sh(cmd, **kw):
     return subprocess.run(cmd, shell=True, capture_output=True, text=True, **kw)
 
